@@ -160,9 +160,69 @@ def run(rep, tier):
     # ---- R19d link witness
     if True:
         link_witness(rep, hs)
+        undefined_witness(rep, hs)
     rep.assume('a build configuration is one of the four config.hpp variants CMake can produce here '
                '(TBB+MPI, TBB only, neither, +LOGGING); *_tbb.hpp and mpi/ headers are the TBB/MPI API and are not '
                'required to compile without those libraries')
+
+
+def undefined_witness(rep, hs):
+    """R19e: each instantiation snippet, compiled by g++ at -O0 into an object and linked on its own with -z defs against the libraries the
+    project links, leaves no undefined reference into the library's own namespace (a static data member that is odr-used but never defined,
+    a declared-only function)"""
+    rep.rule('R19e', 'nothing the header-only library declares is left undefined when its templates are instantiated (-O0 link, -z defs)', floor=15)
+    d = os.path.join(env.scratch(), 'c19undef')
+    os.makedirs(d, exist_ok=True)
+    flags = [f for f in env.flags('full') if f not in ('-UNDEBUG', '-Wno-everything')]
+    libs = ['-ltbb', '-lboost_mpi', '-lboost_serialization', '-lboost_timer', '-lboost_system', '-lboost_thread', '-lpthread']
+    mpi_link = subprocess.run(['mpicxx', '--showme:link'], stdout=subprocess.PIPE, stderr=subprocess.DEVNULL).stdout.decode().split()
+
+    def one(h):
+        sn = snippet_for(h)
+        if not sn:
+            return None
+        base = re.sub(r'[^A-Za-z0-9_]', '_', h)
+        src = os.path.join(d, base + '.cc')
+        with open(src, 'w') as fh:
+            fh.write('#include <%s>\n#include "_common.inc"\n#include "%s"\n' % (h, os.path.basename(sn)))
+        obj = os.path.join(d, base + '.o')
+        p1 = subprocess.run(['g++'] + flags + ['-w', '-O0', '-fPIC', '-I' + os.path.join(env.WITNESS, 'instantiate'), '-c', src, '-o', obj],
+                            stdout=subprocess.PIPE, stderr=subprocess.STDOUT)
+        if p1.returncode != 0:
+            return (h, 'compile', p1.stdout.decode(errors='replace')[:300])
+        p2 = subprocess.run(['g++', '-shared', '-Wl,-z,defs', obj, '-o', os.path.join(d, base + '.so')] + libs + mpi_link,
+                            stdout=subprocess.PIPE, stderr=subprocess.STDOUT)
+        out = p2.stdout.decode(errors='replace')
+        for f_ in (src, obj, os.path.join(d, base + '.so')):
+            try:
+                os.unlink(f_)
+            except OSError:
+                pass
+        return (h, 'link', p2.returncode, out)
+    with concurrent.futures.ThreadPoolExecutor(max_workers=8) as ex_:
+        results = [r for r in ex_.map(one, hs) if r is not None]
+    # positive example: must fail to link
+    pos = os.path.join(env.WITNESS, 'positive', 'c19_undefined.cc')
+    pobj = os.path.join(d, 'pos.o')
+    pc = subprocess.run(['g++'] + flags + ['-w', '-O0', '-fPIC', '-c', pos, '-o', pobj], stdout=subprocess.PIPE, stderr=subprocess.STDOUT)
+    pl = subprocess.run(['g++', '-shared', '-Wl,-z,defs', pobj, '-o', os.path.join(d, 'pos.so')], stdout=subprocess.PIPE, stderr=subprocess.STDOUT)
+    rep.positive('R19e', 'witness/positive/c19_undefined.cc', pc.returncode == 0 and pl.returncode != 0 and b'undefined reference' in pl.stdout)
+    for r in results:
+        h = r[0]
+        what = 'instantiation snippet of %s links with no undefined reference' % h
+        if r[1] == 'compile':
+            rep.info('R19e', 'include/' + h, h, what, 'object does not compile (reported by R19b)')
+            continue
+        rc, out = r[2], r[3]
+        und = sorted(set(re.findall(r"undefined reference to `([^']+)'", out)))
+        ours = [u for u in und if 'parmcb::' in u]
+        if rc == 0:
+            rep.ok('R19e', 'include/' + h, h, what)
+        elif ours:
+            rep.violation('R19e', 'include/' + h, h, what, 'undefined: %s (declared in the header, odr-used by an instantiation, defined nowhere: a header-only '
+                          'library has no translation unit to put the definition in)' % '; '.join(ours[:3]), key='R19e|%s|%s' % (h, ours[0][:80]))
+        else:
+            rep.analysis_broken('R19e link of %s failed for another reason: %s' % (h, out[:300]))
 
 
 def link_witness(rep, hs):
